@@ -69,7 +69,9 @@ def C02_rings(c):
     big = U32 - 3
     scripts_a = [("2p2c", [[E(11), E(12)], [E(21), E(22)], [D, D], [D, D]]),
                  ("3p1c", [[E(11), E(12)], [E(21)], [E(31)], [D, D, D]]),
-                 ("len", [[E(11), E(12), E(13)], [D, L, D], [L, D]])]
+                 ("len", [[E(11), E(12), E(13)], [D, L, D], [L, D]]),
+                 # producers overshooting a full ring (N = 2) while the consumer frees slots: the recede / roll-back paths
+                 ("collide", [[E(11), E(12), E(13)], [E(21), E(22)], [E(31)], [D, D, D]])]
     mr, rr = (500, 200) if quick else (6000, 3000)
     conform_ring(c, "ring_atomic", "ring_atomic", scripts_a, "Trace_RingAtomic", ring_consts, origins=(0, big), max_runs=mr, rnd_runs=rr)
     conform_ring(c, "ring_fullsync", "ring_fullsync", scripts_a, "Trace_RingFullSync", fs_consts, origins=(0, big), max_runs=mr, rnd_runs=rr)
